@@ -229,7 +229,7 @@ func genExchange(t *simrt.Tape, i int, redirects int) *exchange {
 		h.bodyErr = -1
 		final := k == nred
 		if final {
-			h.status = []int{200, 200, 201, 204, 301, 302, 399, 400, 404, 500, 503, 100, 199, 599, 100 + t.Choose(500)}[t.Choose(15)]
+			h.status = []int{200, 200, 201, 204, 301, 302, 399, 400, 404, 500, 503, 100, 199, 599, 100 + t.Choose(500), 101}[t.Choose(16)]
 		} else {
 			h.status = []int{301, 302, 303, 307, 308}[t.Choose(5)]
 			h.location = fmt.Sprintf("/x%d/hop%d", i, k+1)
@@ -517,7 +517,7 @@ func checkExchange(fail func(string, string, ...any), stats map[string]int, log 
 	}
 	if final >= 0 {
 		h := &x.hops[final]
-		if h.bodyErr >= 0 {
+		if h.bodyErr >= 0 && h.status != 101 { // the "body" of a 101 response is not read at all
 			failed = true
 			stats["fault.body-error"]++
 			switch {
@@ -540,6 +540,9 @@ func checkExchange(fail func(string, string, ...any), stats map[string]int, log 
 			b := x.bodies[final]
 			if b.closes == 0 {
 				fail("C06.body-not-closed", "exchange %d: the final response body (status %d, %d bytes, max-body %d) was never closed", i, h.status, len(h.body), maxBody)
+			} else if h.status == 101 {
+				// what net/http hands out as the body of a 101 response is the connection itself (it has no end):
+				// closed, not read
 			} else if !b.endBeforeClose {
 				fail("C06.body-not-drained", "exchange %d: the final response body (status %d, %d bytes, max-body %d) was closed after %d bytes without having been read to its end", i, h.status, len(h.body), maxBody, b.off)
 			}
@@ -583,6 +586,9 @@ func checkExchange(fail func(string, string, ...any), stats map[string]int, log 
 	want := h.body
 	if maxBody >= 0 && int64(len(want)) > maxBody {
 		want = want[:maxBody]
+	}
+	if h.status == 101 {
+		want = nil // the exchange is over with the response: nothing of the switched-to protocol belongs to it
 	}
 	if !bytes.Equal(r.Body, want) {
 		fail("C06.body", "exchange %d: captured %d bytes, want the first %d of %d (max-body %d)", i, len(r.Body), len(want), len(h.body), maxBody)
